@@ -157,6 +157,47 @@ func (lp *loop) roundTrip(m midi.Message) ([]ls.Delivered, engine.Caught) {
 	return lp.l.Take(), c
 }
 
+// loopbackOptions: one message of every constructor through the loopback under
+// every combination of the listen options and sysex buffer sizes 0 (default),
+// 1, 2, 3, 4 and 64: a channel-voice or system-common message is none of the
+// classes an option switches off, so it must arrive unchanged under all of them.
+func loopbackOptions() {
+	msgs := []struct {
+		name string
+		m    midi.Message
+	}{
+		{"NoteOn", midi.NoteOn(3, 60, 100)}, {"NoteOff", midi.NoteOff(3, 60)}, {"NoteOffVelocity", midi.NoteOffVelocity(15, 127, 1)},
+		{"PolyAfterTouch", midi.PolyAfterTouch(0, 1, 2)}, {"ControlChange", midi.ControlChange(9, 7, 127)},
+		{"ProgramChange", midi.ProgramChange(2, 5)}, {"AfterTouch", midi.AfterTouch(2, 99)}, {"Pitchbend", midi.Pitchbend(1, -8192)},
+		{"SPP", midi.SPP(4000)}, {"MTC", midi.MTC(0x35)}, {"SongSelect", midi.SongSelect(9)}, {"Tune", midi.Tune()},
+	}
+	for mask := 0; mask < 8; mask++ {
+		for _, bs := range []uint32{0, 1, 2, 3, 4, 64} {
+			for rev := 0; rev < 2; rev++ {
+				o := ls.Options{SysEx: mask&1 != 0, TimeCode: mask&2 != 0, ActiveSense: mask&4 != 0, BufSize: bs, Reversed: rev == 1}
+				l := ls.NewLoop(o)
+				if l.Err != nil {
+					report("loopback:options:listen-fails", "ListenTo", []int{mask, int(bs)}, nil, fmt.Sprintf("ListenTo with %s fails: %v", o, l.Err))
+					continue
+				}
+				for _, x := range msgs {
+					ctx.Eval()
+					ctx.Add("loopback_option_sends", 1)
+					_, c := l.Send(x.m)
+					got := l.Take()
+					switch {
+					case c.Panicked:
+						report(c.Sig+":loopback:options:"+x.name, x.name, []int{mask, int(bs)}, x.m, "Send panicked with "+o.String()+": "+c.Value)
+						l = ls.NewLoop(o)
+					case len(got) != 1 || !bytes.Equal(got[0].Msg, x.m):
+						report("loopback:options:"+x.name, x.name, []int{mask, int(bs)}, x.m, fmt.Sprintf("with %s the message arrived as [%s]", o, ls.RenderDeliveries(got)))
+					}
+				}
+			}
+		}
+	}
+}
+
 func report(sig, ctor string, args []int, m midi.Message, what string) {
 	if ctx.SigCount(sig) < 10 {
 		ctx.Violation(sig, map[string]interface{}{"kind": "ctor", "constructor": ctor, "args": args, "bytes": engine.Hex(m), "what": what})
@@ -341,6 +382,7 @@ func main() {
 		bend(lp, bendCh[j], ctx.Pick(16, 1))
 	})
 	// system common
+	ctx.Jobs("loopback-options", 1, func(int) { loopbackOptions() })
 	ctx.Jobs("syscommon", 4, func(j int) {
 		lp := newLoop()
 		for p := j; p < 65536; p += 4 {
